@@ -184,3 +184,52 @@ def run(ctx):
         elif end:
             ctx.observations.append("model predicts a Close() hang (NoHang) that did not reproduce on the real writer")
     ctx.extra["scenarios"] = {"generated": len(scenarios), "free": nfree}
+    registry(ctx)
+
+
+def cfg_registry(variant):
+    return ("SPECIFICATION Spec\nCONSTANTS\n  Producers = {p1, p2, p3}\n  Topics = {ta, tb}\n  MaxW = 4\n  Code_CheckThenCreate = %s\n"
+            "INVARIANTS OnePipelinePerTopic ShutdownClosesAll\nCHECK_DEADLOCK FALSE\n" % ("TRUE" if variant else "FALSE"))
+
+
+def registry(ctx):
+    """The writer registry (core/the/eventwriter.go): one pipeline per topic, every pipeline closed (= flushed) at shutdown."""
+    quick = ctx.tier == "quick"
+    ctx.model_check("EventRegistry", None, cfg_text=cfg_registry(False), workers=2)
+    rv = ctx.tlc("EventRegistry", None, cfg_text=cfg_registry(True), workers=2)
+    ctx.extra["registry_variant_check_then_create_detected_by"] = rv.violated[0] if rv.violated else "not detected"
+    if not rv.violated:
+        raise vlib.Inconclusive("EventRegistry's invariants do not reject the check-then-create variant")
+    binp = ctx.build("evregistry")
+    tf = ctx.path("registry.ndjson")
+    rounds, topics = (12, 60) if quick else (60, 120)
+    out = ctx.run([binp, "-trace", tf, "-rounds", str(rounds), "-topics", str(topics), "-producers", "8"], timeout=1500)
+    ctx.log("registry: " + out.strip().splitlines()[-1])
+    viol, _drift, _tr = ctx.validate("EventRegistryTrace", None, tf, cfg_text="SPECIFICATION TraceSpec\nINVARIANT PrintEnd\nCHECK_DEADLOCK FALSE\n")
+    ctx.traces += rounds
+    ctx.extra["registry"] = {"rounds": rounds, "fresh_topics_per_round": topics, "producers_released_together": 8}
+    for i in range(rounds):
+        ctx.count_case("registry-round-%d-%d" % (ctx.seed, i), nontrivial=True)
+    seen = set()
+    for v in viol:
+        if (v[1], v[2]) in seen:
+            continue
+        seen.add((v[1], v[2]))
+        ctx.add_violation({"inv": v[1], "scn": v[2], "line": v[3], "phase": "registry", "mode": "free", "origin": "registry", "detail": str(v[4])[:200]},
+                          replay_obj={"kind": "registry", "rounds": rounds, "topics": topics})
+
+
+def replay(ctx, obj):
+    if obj.get("kind") == "registry":
+        return registry(ctx)
+    drain = not ctx.deviation_open(DEV_KEY)
+    s = obj["scenario"]
+    binp = ctx.build("eventwriter")
+    scn_file, trace_file = ctx.path("scenarios.ndjson"), ctx.path("trace.ndjson")
+    ctx.write_ndjson(scn_file, [s])
+    ctx.run([binp, "-scenarios", scn_file, "-trace", trace_file], timeout=600)
+    viol, _drift, _tr = ctx.validate("EventWriterTrace", None, trace_file, cfg_text=cfg_trace(drain, s.get("cfg", {}).get("chancap", 1)))
+    lines = ctx.read_ndjson(trace_file)
+    for v in viol:
+        ctx.add_violation({"inv": v[1], "scn": v[2], "line": v[3], "phase": "replay", "mode": "free" if s.get("free") else "sched",
+                           "origin": s.get("origin", "generated")}, replay_obj={"scenario": s, "trace": lines})
